@@ -21,7 +21,7 @@ CHECKS = {
  "C02": P("Lean: soundness of the tree certificate checker (root expansion = table for every interpretation), bilinear child combination. Certificates extracted from the real "
           "symbolic_ttno for random trees (dummy / multi-set nodes, all builders' shapes) and three algorithms are validated against an independent post-order table. Dense oracle "
           "TTNO.todense vs Kronecker sum vs chain MPO vs permuted children.",
-          LEAN_TB + "Multilinear contraction semantics of a tree and numeric node tensors are validated by the oracle. tn imports only with the print_tree shim.",
+          LEAN_TB + "Contraction semantics of a tree is proved in an abstract R-algebra (autoTree_eq_expand, accepted_tree_contracts); numeric node tensors and the identification of that algebra with the dense tensor product are validated by the oracle. tn imports only with the print_tree shim.",
           "Lean 4 proof of a sound tree-certificate checker; certificates validated on real output", "§6 C02, §10.2"),
  "C03": P("Lean: dense amplitudes of add / sub / scale / conj / dot / inner / apply for dimension-indexed chains over any commutative ring, any length and dimensions; amplitudes are "
           "invariant under every re-gauging (Steps), so the statements hold in any gauge and after canonicalise/compress. Exact replay: integer QN-consistent chains with different "
